@@ -270,7 +270,7 @@ def child_load(args):
         kw["is_nac"] = False
     ph = phonopy.load("phonopy_disp.yaml", **kw)
     ph.run_qpoints(PROBES, nac_q_direction=[1, 0, 0])
-    return {"freq": np.array(ph.get_qpoints_dict()["frequencies"]), "factor": ph.unit_conversion_factor,
+    return {"freq": np.array(ph.get_qpoints_dict()["frequencies"]), "factor": ph.unit_conversion_factor, "min_mass": float(np.min(ph.masses)),
             "nac_factor": None if ph.nac_params is None else ph.nac_params.get("factor")}
 
 
@@ -413,6 +413,7 @@ def execute(spec):
                 outputs = []
                 any_reordered = False
                 pos_err_rel = 0.0
+                disp_amp = None
                 cwd = os.getcwd()
                 os.chdir(path)
                 try:
@@ -445,6 +446,7 @@ def execute(spec):
                         u_ -= np.rint(u_)
                         amp = float(np.max(np.linalg.norm(u_ @ np.array(sup["lattice"]), axis=1))) or 1.0
                         pos_err_rel = max(pos_err_rel, float(np.max(np.linalg.norm(dd_ @ np.array(sup["lattice"]), axis=1))) / amp)
+                        disp_amp = amp if disp_amp is None else min(disp_amp, amp)
                         steps["peer_jobs"] += 1
                         if calc in peers.PEER_CALCULATORS:
                             F, perm = peers.harmonic_forces_for_file(rc, ideal_A, p1["fc_model"], L)
@@ -578,7 +580,12 @@ def execute(spec):
                             d, sc = cmp_freq(p3["freq"], refp)
                             # the forces answer the positions the written file carries; every format is expected to carry the
                             # displacement well enough for 2e-5 (pos_err_rel is reported for diagnosis, it does not widen the bound)
-                            if d > 2e-5 * sc:
+                            # FORCE_SETS carries forces to 10 decimals in the calculator's force unit (file_IO: %15.10f): with weak
+                            # springs, small displacements and hartree/bohr that quantum, not the unit tables, bounds the agreement
+                            quantum = 6.0 * np.sqrt(3.0 * p1["natom"]) * (5e-11 / disp_amp) * float(p3["factor"]) ** 2 / p3["min_mass"]
+                            if quantum > 2e-5 * sc:
+                                probes["force_sets_print_precision_bound_the_tolerance:%s" % calc] = 1
+                            if d > max(2e-5 * sc, quantum):
                                 V("units-inconsistent", "%s:protocol:%s" % (calc, "with-BORN" if p1["born"] is not None else "no-NAC"), maxdiff_eig=d, scale=sc,
                                   position_error_of_written_file_relative_to_displacement=pos_err_rel,
                                   freq=p3["freq"][3].tolist(), ref=refp[3].tolist(), nac_factor=p3["nac_factor"])
